@@ -18,8 +18,8 @@ def run(args):
         ctx.obligations.append(ob)
     else:
         cases, metas = ctx.run_harness("c08")
-        back = [c for c in cases if c[0].split(" ")[1] in ("bytesback", "strback")]
-        cases = [c for c in cases if c[0].split(" ")[1] not in ("bytesback", "strback")]
+        back = [c for c in cases if c[0].split(" ")[1] in ("bytesback", "strback", "floatback")]
+        cases = [c for c in cases if c[0].split(" ")[1] not in ("bytesback", "strback", "floatback")]
         model = ctx.run_driver([c[0] for c in cases])
         by_stream = {}
         for c, m in zip(cases, model):
@@ -73,5 +73,5 @@ def run(args):
                               "whole_file_ok": n_ok, "harness_meta": metas + fmetas, "oracle_failures": len(failures)}
     ctx.conclude_broken_obligations(failures)
     return ctx.finish(
-        rule="seeded random expressions over the whole ladder (20 binary ops, 3 prefix ops, ?, indexing, parens; depth ≤ 6) through the real lexer/parser/formatter; every repository .incn file + the construct corpus in /verif/corpus/fmt + random statement-embedded expressions through format_source with AST comparison; string and bytes literal values (every byte value, quotes, apostrophes, backslashes, control and non-ASCII characters) through the formatter and back through the lexer, and arbitrary literal texts through the lexer; distinct = distinct tree / source / value",
+        rule="seeded random expressions over the whole ladder (20 binary ops, 3 prefix ops, ?, indexing, parens; depth ≤ 6) through the real lexer/parser/formatter; every repository .incn file + the construct corpus in /verif/corpus/fmt + random statement-embedded expressions through format_source with AST comparison; string, bytes and float literal values (floats incl. integral values beyond 2^63, subnormals, the largest finite value; every byte value, quotes, apostrophes, backslashes, control and non-ASCII characters) through the formatter and back through the lexer, and arbitrary literal texts through the lexer; distinct = distinct tree / source / value",
         extra_cov=getattr(ctx, "coverage_extra", None))
